@@ -235,6 +235,7 @@ func (c *Cluster) afterStep(s *Step) {
 		}
 	}
 	c.checkForksInRecord()
+	c.probeFameLag()
 	full := c.cfg.FullReread || c.stepNo%maxInt(c.cfg.CheckEvery, 1) == 0
 	for _, n := range c.nodes {
 		if n.started && !n.byz && !n.isObserver {
@@ -374,4 +375,37 @@ func (c *Cluster) tooBig() bool {
 		}
 	}
 	return false
+}
+
+// probeFameLag records how far behind the newest round the oldest undecided
+// round is (distance 4 = a coin round has been reached in DecideFame).
+func (c *Cluster) probeFameLag() {
+	for _, n := range c.nodes {
+		if !n.running() || n.isObserver {
+			continue
+		}
+		h := n.core().Hashgraph()
+		pr := h.PendingRounds.GetOrderedPendingRounds()
+		if len(pr) == 0 {
+			continue
+		}
+		for _, p := range pr {
+			if p.Decided {
+				continue
+			}
+			lag := h.Store.LastRound() - p.Index
+			c.stats.probeMax("fame-lag-max", lag)
+			if lag >= 4 && !n.lagCounted[p.Index] {
+				if n.lagCounted == nil {
+					n.lagCounted = map[int]bool{}
+				}
+				n.lagCounted[p.Index] = true
+				c.stats.probe("coin-round-reached")
+			}
+			if lag >= 3 {
+				c.stats.probeMax("fame-lag-ge3-seen-max", 1)
+			}
+			break
+		}
+	}
 }
